@@ -375,3 +375,34 @@ Lemma std_contain_file_any_inhabited :
   /\ std_fs_any_case (B "file://h.x/tmp/d?q") [(B "", B "file://h.x/tmp/d?q"); (B "?x", B "file://h.x/tmp/d?x");
        (B "#f", B "file://h.x/tmp/d?q#f"); (B "/p", B "file://h.x/p"); (B "\p", B "file://h.x/p"); (B "e/f", B "file://h.x/tmp/e/f")] = true.
 Proof. vm_compute. repeat split. Qed.
+
+(* the full law: every reference meets std_contain_pre against the Standard's parse result of the base, the Standard
+   succeeds, keeps scheme / username / password / host / port texts and gives the expected href *)
+Definition std_every_case (base : list N) (refs : list (list N * list N)) : bool :=
+  let idna := ex_idna_clean in
+  match spec_basic_url_parse (spec_host_parser idna) base None with
+  | BDone sb =>
+      negb (has_opaque_path sb)
+      && forallb (fun re =>
+           std_contain_pre sb (spec_clean (fst re))
+           && match spec_basic_url_parse (spec_host_parser idna) (fst re) (Some sb) with
+              | BDone su =>
+                  list_eqb (su_scheme su) (su_scheme sb) && list_eqb (su_username su) (su_username sb)
+                  && list_eqb (su_password su) (su_password sb)
+                  && list_eqb (get_host spec_host_serializer su) (get_host spec_host_serializer sb)
+                  && list_eqb (get_port su) (get_port sb)
+                  && list_eqb (get_href spec_host_serializer su) (snd re)
+              | _ => false
+              end) refs
+  | _ => false
+  end.
+
+Lemma std_contain_every_inhabited :
+  std_every_case (B "file://h.x/tmp/d?q")
+    [(B "", B "file://h.x/tmp/d?q"); (B "?x", B "file://h.x/tmp/d?x"); (B "#f", B "file://h.x/tmp/d?q#f");
+     (B "/p", B "file://h.x/p"); (B "\p", B "file://h.x/p"); (B "e/f", B "file://h.x/tmp/e/f");
+     (B "C|/y", B "file://h.x/C:/y"); (B "/C:/x", B "file://h.x/C:/x"); (B "/C|", B "file://h.x/C:")] = true
+  /\ std_every_case (B "file:///C:/a/b") [(B "/p", B "file:///C:/p"); (B "/D|/p", B "file:///D:/p"); (B "..", B "file:///C:/");
+       (B "../../..", B "file:///C:/"); (B "D|", B "file:///D:")] = true
+  /\ std_every_case (B "https://u:p@h.x:8/a/b?q") [(B "/C:/x", B "https://u:p@h.x:8/C:/x"); (B "\z", B "https://u:p@h.x:8/z")] = true.
+Proof. vm_compute. repeat split. Qed.
